@@ -534,6 +534,7 @@ impl Check for C04 {
             PhaseSpec { name: "artifacts", cases: tier.pick(4_000, 80_000), max_bytes: 48, exhaustive: false },
             // package directories as a file system can present them (odd entries, unreadable text)
             PhaseSpec { name: "layouts", cases: tier.pick(4_000, 60_000), max_bytes: 1500, exhaustive: false },
+            PhaseSpec { name: "cli", cases: tier.pick(1_200, 20_000), max_bytes: 1500, exhaustive: false },
             PhaseSpec { name: "prog", cases: tier.pick(40_000, 600_000), max_bytes: 500, exhaustive: false },
             PhaseSpec { name: "illprog", cases: tier.pick(20_000, 300_000), max_bytes: 420, exhaustive: false },
             // hand-written programs with shapes the generator does not build (self-referential generic types)
@@ -583,12 +584,16 @@ impl Check for C04 {
                 Case::new(json!({"text": crate::gen::render::render(&p), "prog": true}))
             }
             "layouts" => Case::new(make_layout_case(&mut d, ctx)),
+            "cli" => Case::new(crate::props::c04cli::make_cli_case(&mut d, ctx, LAYOUT_OPS)),
             _ => Case::new(make_artifact_case(&mut d, ctx)),
         }
     }
     fn judge(&self, phase: &str, case: &Case, ctx: &mut Ctx) -> CaseOut {
         if case.input["kind"].as_str() == Some("artifact") || phase == "artifacts" {
             return judge_artifact(&case.input, ctx);
+        }
+        if case.input["kind"].as_str() == Some("cli") {
+            return crate::props::c04cli::judge_cli(&case.input, ctx, &apply_layout_op);
         }
         if case.input["kind"].as_str() == Some("layout") {
             return judge_layout(&case.input, ctx);
